@@ -98,6 +98,8 @@ def legacy_stage(ctx, sd, rnd, mc):
     scns.append(dict(id=base + 900001, n=2, mode="pdh", home=0, plan=["s404", "match", "s404", "s404", "s404"],
                      steps=[{"b": 0, "k": "s404"}, {"b": 2, "k": "s404"}, {"b": 1, "k": "match"}], rseed=ctx.seed,
                      req="exact", origin="crafted", craft="no_final_newline", path="legacy"))
+    for s in scns:
+        s["mm"] = "empty" if s["id"] % 4 == 0 else "tamper"
     ov = ctx.harness_overlay(pkg, "harness/C18_controller", extra=PAM)
     events, out = ctx.go_run_driver(pkg, ov, "TestVerifC18Legacy$", scns, timeout=1500)
     return scns, events
@@ -138,6 +140,8 @@ def run(ctx):
         scns.append(dict(id=2 * base + i, n=1 + i, mode="uuid", home=1, plan=["s404", "mismatch", "s404", "s404", "s404"],
                          steps=[{"b": 1, "k": "mismatch"}], rseed=ctx.seed, req="exact", origin="crafted",
                          craft="loc_eol"))
+    for s in scns:
+        s["mm"] = "empty" if s["id"] % 4 == 0 else "tamper"      # what a "mismatch" answer is made of
     by_id = {s["id"]: s for s in scns}
     ov = ctx.harness_overlay(pkg, "harness/C18_federation", extra=PAM)
     events, out = ctx.go_run_driver(pkg, ov, "TestVerifC18$", scns, timeout=1500, race=ctx.thorough)
@@ -182,7 +186,7 @@ def run(ctx):
     ctx.extra["hang_traces"] = sum(1 for t in traces if any(e["ev"] == "hang" for e in t))
     ctx.rule = ("scenarios = all paths of FedFetch.tla (plan of local + <=3 remotes over match/mismatch/404/5xx/hang x "
                 "order of answers x client cancel when stuck), each with a generated manifest (signed, unsigned, "
-                "multiply hinted locators, awkward names), a tampering for every mismatch, and a requested hash "
+                "multiply hinted locators, awkward names), a tampering (or, in a quarter of the scenarios, an empty manifest text) for every mismatch, and a requested hash "
                 "variant; plus seeded random scenarios with up to 4 remotes and early cancels; non-trivial = at "
                 "least two backend answers; distinct by (n, mode, request variant, answer sequence, outcome)")
     ctx.samples = [{"scenario": by_id.get(t[0].get("scn")), "trace": t}
